@@ -371,9 +371,29 @@ def correspond(ctx):
     prs = Presentation()
     slide = prs.slides.add_slide(prs.slide_layouts[6])
     big_done = False
+    deck = []   # [chart, the data it holds now, chart type] for every chart of the current deck
+
+    def reopen_all():
+        """the whole deck - dozens of chart parts and workbooks - saved and re-opened: every graphic frame still shows the
+        chart it was given (names, categories, values), through the read API of the re-opened deck"""
+        import io as _io
+        if not deck:
+            return
+        b = _io.BytesIO(); prs.save(b)
+        sl2 = Presentation(_io.BytesIO(b.getvalue())).slides[0]
+        charts2 = [sh.chart for sh in sl2.shapes if getattr(sh, "has_chart", False)]
+        mine = [sh.chart for sh in slide.shapes if getattr(sh, "has_chart", False)]
+        for ch, spec_, ct_ in deck:
+            k = next((i for i, c in enumerate(mine) if c._chartSpace is ch._chartSpace), None)
+            if k is not None and k < len(charts2) and spec_ is not None:
+                check_chart(ctx, charts2[k], spec_, ct_, "deck-reopened(%d charts)" % len(mine), lines, impl, metas)
+        ctx.count("deck-reopen-passes")
+        del deck[:]
+
     for ct, kind in types:
         for rep in range(per_type):
             if len(slide.shapes) > 40:
+                reopen_all()
                 prs = Presentation(); slide = prs.slides.add_slide(prs.slide_layouts[6])
             if kind == "cat":
                 ns = None
@@ -391,6 +411,7 @@ def correspond(ctx):
                 continue
             ctx.count("type-" + kind); ctx.count("cats-" + spec["kind"])
             check_chart(ctx, chart, spec, ct, "add", lines, impl, metas)
+            entry = [chart, spec, ct]; deck.append(entry)
             # replace_data sequences
             for r in range(rng.choice([0, 1, 1, 2, 3])):
                 sers = [s for pl in chart.plots for s in pl.series]
@@ -403,6 +424,7 @@ def correspond(ctx):
                         pass
                 if rng.random() < 0.4:
                     foreign_state(ctx, rng, chart)
+                    entry[1] = None    # (a foreign series population: what the chart holds is judged by the model comparison, not re-read)
                 if kind == "cat" and r == 0 and rng.random() < 0.35 and spec["series"]:
                     # the SAME chart-data object used again after it has grown (a sub-category under an existing
                     # branch, or one more category; one more value in each series)
@@ -413,6 +435,7 @@ def correspond(ctx):
                             ctx.fail("replace-data-raises:" + ct.name, f"{ct.name}: replace_data with the grown chart-data object raised {type(e).__name__}: {str(e)[:150]}", {"chart_type": ct.name, "data": str(spec)[:400]})
                             break
                         ctx.count("replace_data-same-object-grown")
+                        entry[1] = spec
                         check_chart(ctx, chart, spec, ct, "reuse-grown", lines, impl, metas)
                 other_xml = [x for x in lab.chart_xml(chart).xpath("//c:legend | //c:title | //c:valAx/c:majorGridlines", namespaces=lab.NS)]
                 if kind == "cat":
@@ -431,12 +454,27 @@ def correspond(ctx):
                     ctx.fail("replace-data-raises:" + ct.name, f"{ct.name}: replace_data raised {type(e).__name__}: {str(e)[:150]}", {"chart_type": ct.name, "data": str(spec2)[:400]})
                     break
                 ctx.count("replace_data")
+                entry[1] = spec2
                 check_chart(ctx, chart, spec2, ct, f"replace#{r + 1}", lines, impl, metas)
                 survivors = [s._element for pl in chart.plots for s in pl.series]
                 for el in marks:
                     if el in survivors and not el.xpath("./c:spPr/a:solidFill/a:srgbClr[@val='123456']"):
                         ctx.fail("replace-data-lost-formatting", f"{ct.name}: formatting of a surviving series was lost by replace_data", {"chart_type": ct.name})
                         break
+    reopen_all()
+    # names and labels that are not str are written as their str() ('%s' formatting): values that are EQUAL but print
+    # differently (2020 / 2020.0, 1 / 1.0) in one process, one chart after the other and through replace_data
+    from pptx.chart.data import CategoryChartData
+    from pptx.enum.chart import XL_CHART_TYPE
+    prs = Presentation(); slide = prs.slides.add_slide(prs.slide_layouts[6])
+    for names in ([2020, 1, 0], [2020.0, 1.0, 0.0], [1.0, 2020, "2020"], [0, 0.0, 1]):
+        cd = CategoryChartData(); cd.categories = ["a", "b"]
+        for nm in names:
+            cd.add_series(nm, [1, 2])
+        spec = {"kind": "str", "cats": ["a", "b"], "depth": 1, "series": [(str(nm), [1, 2]) for nm in names]}
+        chart = slide.shapes.add_chart(XL_CHART_TYPE.LINE, 0, 0, 100, 100, cd).chart
+        check_chart(ctx, chart, spec, XL_CHART_TYPE.LINE, "non-str names %r" % (names,), lines, impl, metas)
+        ctx.count("non-str-series-names")
     # replace_data on the PowerPoint-authored charts of the corpus: their series carry idx / order populations the
     # writer itself never produces (highest idx different from highest order, gaps, permutations)
     from harness import common as _c
